@@ -1,0 +1,43 @@
+//go:build verif
+// +build verif
+
+// Contracts for the govc verifier (comments only; see /verif/DESIGN.md).
+package filetracker
+
+//@ func getFileRange
+//@   ensures [range] ret0 == offset && ret1 == offset + len
+
+//@ func min
+//@   ensures [min] (result == a || result == b) && result <= a && result <= b
+
+// ---- trackWrite, per marker (C22). Markers are visited in offset order by the radix tree walk
+// (external); what is proved is the treatment of ONE marker against the write [start,end). ----------
+//@ func (*TFile).trackWrite$1
+//@   call getOffset#1 bind key = $ret0
+//@   call Delete#1 assert [merge-previous-range] key_set && key == start && $1 == k
+//@   call Delete#2 assert [covered-marker] key_set && start < key && key < end && $1 == k
+//@   call Delete#3 assert [merge-next-range] key_set && key == end && $1 == k
+//@   ensures [stops-at-end] key_set && (start < end ==> (result <==> key >= end))
+//@   ensures [start-inside-previous-range] key < start ==> insertStart == !isStart && insertEnd == old(insertEnd)
+//@   ensures [start-marker-present] key == start ==> !insertStart && insertEnd == old(insertEnd)
+//@   ensures [interim-keeps-decisions] start < key && key < end ==> insertStart == old(insertStart) && insertEnd == old(insertEnd)
+//@   ensures [end-marker-present] key == end && start < end ==> !insertEnd && insertStart == old(insertStart)
+//@   ensures [end-inside-next-range] key > end && start < end ==> insertEnd == isStart && insertStart == old(insertStart)
+
+//@ func (*TFile).trackWrite
+//@   call Root#1 bind root = $ret0
+//@   call Walk#1 assert [walks-whole-tree] root_set && $0 == root
+//@   call getKey#3 assert [start-marker] $key == offset
+//@   call getKey#4 assert [end-marker] $key == offset + length
+
+// ---- getRangeToRead, per marker: the last marker at or before the offset decides the backend, the
+// first marker after it bounds the contiguous range ---------------------------------------------------
+//@ func (*TFile).getRangeToRead$1
+//@   call getOffset#1 bind key = $ret0
+//@   ensures [stops-after-offset] key_set && (result <==> key > offset)
+//@   ensures [backend-of-last-marker] key <= offset ==> storage == isStart && contiguous == old(contiguous)
+//@   ensures [range-bounded-by-next-marker] key > offset ==> storage == !isStart && contiguous <= len && contiguous <= key - offset && (contiguous == len || contiguous == key - offset)
+
+//@ func (*TFile).getRangeToRead
+//@   call Root#1 bind root = $ret0
+//@   call Walk#1 assert [walks-whole-tree] root_set && $0 == root
